@@ -149,6 +149,17 @@ CHECKS = {
        'laws with symbolic type / placeholder / value / name / dir strings on a compact document (time-boxed).',
   design_ref='DESIGN.md §4 C17',
   technique='CrossHair symbolic execution of real state pseudo-classes + z3 (symbolic attribute strings), set-law and reference oracles, replay'),
+ 'C14': dict(
+  text='Schedules as solver variables: every mutable object reachable from the soupsieve modules\' globals and class '
+       'attributes is re-classed to a recording variant, each API call (15 compile patterns, 12 select/match/filter/closest '
+       'calls) is traced, and for every pair (quick) / triple (thorough) of calls z3 decides whether an interleaving exists '
+       'in which a read observes another thread\'s differing write; satisfiable schedules are enforced on real threads by '
+       'a lock-step scheduler and only divergence from the sequential result is reported. With no shared writes every query '
+       'is unsat and the evidence says so.',
+  design_ref='DESIGN.md §4 C14', engine='E3 z3 schedule search + lock-step replay',
+  note='Trusted base: completeness of the shared-state discovery (Python-level objects reachable from module globals and '
+       'class attributes), atomicity of functools.lru_cache, z3 QF_LIA; reported violations are reproduced on real threads.',
+  technique='access traces of real code -> z3 interleaving (read-from) query -> enforced schedule on real threads'),
 }
 
 NOT_APPLICABLE = {
